@@ -231,7 +231,7 @@ class Lit:
                         return Lit(self.repo, self.modname).ev(tree)
                     except ZeroDivisionError:
                         raise ValueError('division by zero')
-            if isinstance(n.func, ast.Attribute) and n.func.attr in ('format', 'join', 'upper', 'lower', 'count', 'items', 'keys', 'values', 'get', 'split', 'strip', 'replace', 'startswith', 'endswith', 'isspace', 'isdigit', 'partition', 'rpartition', 'index', 'find'):
+            if isinstance(n.func, ast.Attribute) and n.func.attr in ('format', 'join', 'upper', 'lower', 'count', 'items', 'keys', 'values', 'get', 'split', 'strip', 'replace', 'startswith', 'endswith', 'isspace', 'isdigit', 'partition', 'rpartition', 'index', 'find', 'ljust', 'rjust', 'zfill', 'isalpha', 'title', 'lstrip', 'rstrip'):
                 base = self.ev(n.func.value)
                 if isinstance(base, (str, dict, tuple, list)):
                     args = [self.ev(a) for a in n.args]
@@ -450,13 +450,18 @@ class FuncFold(ModuleFold):
 
 class ModFolder:
     """Fold calls between the module-level functions of one module (pure functions over literals)."""
-    def __init__(self, repo, modname, extra=None):
+    def __init__(self, repo, modname, extra=None, global_hook=None):
         self.repo, self.modname = repo, modname
         self.mod = repo.mod(modname)
         self.extra = extra or {}
+        self.global_hook = global_hook      # consulted first, inherited by cross-module calls
 
     def hook(self):
         def f(n, lit):
+            if self.global_hook is not None:
+                v = self.global_hook(n, lit)
+                if v is not None:
+                    return v
             if isinstance(n, ast.Name) and n.id in self.mod.funcs:
                 return ('f', n.id)
             if isinstance(n, ast.Name) and n.id in self.extra:
@@ -475,21 +480,23 @@ class ModFolder:
                     target = lit.ev(n.func)
                 except NotLiteral:
                     return None
+                kw = {k.arg: lit.ev(k.value) for k in n.keywords if k.arg}
                 if isinstance(target, tuple) and len(target) == 2 and target[0] == 'f':
-                    r = self.call(target[1], [lit.ev(a) for a in n.args])
+                    r = self.call(target[1], lit._seq(n.args), kw)
                     return FOLDED_NONE if r is None else r
                 if isinstance(target, tuple) and len(target) == 3 and target[0] == 'fx':
-                    r = ModFolder(self.repo, target[1]).call(target[2], [lit.ev(a) for a in n.args])
+                    r = ModFolder(self.repo, target[1], global_hook=self.global_hook).call(target[2], lit._seq(n.args), kw)
                     return FOLDED_NONE if r is None else r
             return None
         f.wants_lit = True
         return f
 
-    def call(self, name, args):
+    def call(self, name, args, kw=None):
         fn = self.mod.funcs[name]
         params = [a.arg for a in fn.args.args]
         defaults = fn.args.defaults
         env = dict(zip(params, args))
+        env.update(kw or {})
         for p, d in zip(params[len(params) - len(defaults):], defaults):
             if p not in env:
                 env[p] = Lit(self.repo, self.modname).ev(d)
